@@ -238,4 +238,32 @@ CLAIMS["C15"] = {
     "note": "Value agreement with Python lists over all contents and histories is not decided.",
 }
 
+CLAIMS["C05"] = {
+    "technique": "canonical affine relation of each comparison vs the operator's meaning, operator-of-hint correspondence, "
+                 "truth tables of the Boolean operators' polynomials, reflected-operand-order check, operand-use census, "
+                 "sign-guard dominance for slice bounds, zero-test dominance for divisors",
+    "text": "Decides necessary structural clauses of agreement with Python: every reflected method computes `other op self` "
+            "(aliases only on commutative operators); each comparison tests exactly the relation its name denotes (off-by-one "
+            "included); each result hint is computed with the Python operator the dunder implements, floor division only under "
+            "a divisibility test, divmod hints equal (s//d, s - (s//d)d); Boolean and/or/xor/not polynomials have the operators' "
+            "truth tables on both the wire and the constant arm; shifts, abs and integer power have the standard definitions; "
+            "every binary operator reads its operand; a public shift count used as a slice bound is sign-checked; divisors are "
+            "zero-tested before use.",
+    "note": "Value agreement for all operands (bitlength boundary, composed expressions) is not decided. LinCombBool.__pow__ "
+            "ignoring its exponent is a known finding; the negative right-shift defect was repaired.",
+}
+CLAIMS["C09"] = {
+    "technique": "contradiction rule on isinstance contracts computed by the abstract interpreter (which operand kinds make "
+                 "add_guard / if_then_else raise on every path), arity check of resolved method calls, merge-shape and "
+                 "condition-algebra checks, C06 non-interference over branching.py",
+    "text": "Decides: whether some secret condition kind is accepted both by add_guard (entry) and by if_then_else (exit merge); "
+            "that method calls on receivers of known kind have an acceptable arity; that exit() merges every tracked variable "
+            "as select(cond, branch value, previous value) for the same name with the backup taken before the guard; that "
+            "elif/else/while/break conditions follow icond&c / icond&(1-c) / cond&c / cond&(1-c) computed before entering; "
+            "that the for-iterator runs to the public bound; that the constructs are data-oblivious.",
+    "note": "Equivalence with a native-control-flow twin over all nestings and inputs is differential execution and NOT claimed. "
+            "The block API is stale w.r.t. Boolean-typed conditions: three known findings (contract contradiction, 1-cond, "
+            "assert_zero arity).",
+}
+
 NOT_APPLICABLE = {}
